@@ -51,7 +51,7 @@ CHECKS = {
          "same for the differ -> mergeTables -> collector -> caller topology with its shared error channel; the pool model without the mutex "
          "must violate NoLoss (self-test). Real 1..16-worker ingests (GOMAXPROCS 1/2/4/16, seeded sleeps inside the hooks, injected store "
          "failures, the workers reporting to one visible progress bar whose Done + Wait must return) are recorded through the verif hooks and validated by TLC against TracePool.tla; the diff scenario set is replayed under "
-         "seeded yields at every channel send; diff and merge scenarios are repeated with a read error injected at the k-th store read (once, "
+         "seeded yields at every channel send, and a sample as `wrgl diff FILE FILE -n 8` on tables of up to 18 blocks (the command's own in-memory ingest); diff and merge scenarios are repeated with a read error injected at the k-th store read (once, "
          "and sticky = an unreadable object): every run must end and a fault that fired must be reported or not matter; thorough adds "
          "race-detector runs.",
          "real schedules are sampled, only the model's are exhaustive; worker ids / channel contents not logged",
@@ -125,7 +125,7 @@ CHECKS = {
          "repositories of <=3 (quick) / <=4 (thorough, 595,056) commits over three block-sharing tables x ref subsets of every kind x absent "
          "(shallow) tables; each is built for real (ingest-built tables, objmock or badger+sqlite) and run through prune.Prune / wrgl prune / "
          "wrgl gc twice, key sets compared with must/mustNot and every surviving commit re-read in full; traces of larger seeded "
-         "repositories (also `wrgl gc` with a transaction TTL configured in the repository / the global configuration) are validated by TLC (TracePrune.tla).",
+         "repositories (also `wrgl gc` with a transaction TTL configured in the repository / the global configuration, under other machine time zones with transactions three hours from their TTL) are validated by TLC (TracePrune.tla).",
          "commit objects named by refs/parents exist; tables are complete or absent",
          "TLA+ spec Prune.tla; TLC-enumerated repositories replayed into pkg/prune and the CLI; TLC trace validation (TracePrune.tla)",
          "DESIGN.md 5/C12"),
@@ -152,7 +152,7 @@ CHECKS = {
  "C15": ("refs", "model_checking",
          "TLC explores the ref-store specification (Refs.tla) exhaustively over an alphabet of names with '_', '%', case variants "
          "and nested prefixes; every transition of the model's state graph is replayed on the real SQL ref store with return value "
-         "and projected store compared (transition cover), and seeded real-scale operation traces recorded from the real store are "
+         "and projected store compared (a transition cover taken over the abstract state plus 'the last operation was a copy / rename', so that every operation is also explored right after one; log entries compared whole - old, new and author / action / message / transaction id as the kind of entry), and seeded real-scale operation traces recorded from the real store are "
          "validated against the specification by TLC (TraceRefs.tla); the cover is replayed on the file ref store (pkg/ref/fs) as well, for the "
          "operations it implements (RefsGen!FsStep decides); RemoteCfg.tla models `wrgl remote add / rename / remove / set-branches` and "
          "`wrgl config` over the ref model, and its transition cover and seeded traces run through the real CLI with config, whole ref "
